@@ -5,6 +5,8 @@ import (
 	"fmt"
 	"math/rand"
 	"net/http"
+	"os"
+	"path/filepath"
 	"sort"
 	"strings"
 	"testing"
@@ -47,11 +49,28 @@ type c16Item struct {
 	sub        string
 	cookie     string
 	err        error
-	mintErr    error  // the code under test minted no (usable) token: CreateSession / TrackRequest returned an error, panicked, set no cookie
-	ckMaxAge   string // Max-Age attribute of the Set-Cookie line CreateSession wrote ("" = none)
-	pick       int    // concrete names of the URL classes (c16UrlConc)
-	ownAud     string // audience = issuer the model says this deployment's codecs require
-	mintAud    string // audience = issuer the model says the minting deployment's codec stamps ("" = no prediction)
+	mintErr    error             // the code under test minted no (usable) token: CreateSession / TrackRequest returned an error, panicked, set no cookie
+	ckMaxAge   string            // Max-Age attribute of the Set-Cookie line CreateSession wrote ("" = none)
+	pick       int               // concrete names of the URL classes (c16UrlConc)
+	ownAud     string            // audience = issuer the model says this deployment's codecs require
+	mintAud    string            // audience = issuer the model says the minting deployment's codec stamps ("" = no prediction)
+	reqHdrs    map[string]string // the vector's request shape: headers besides Cookie (the method is the vector's)
+}
+
+// c16TokCookieHeader is the Cookie header of a token presentation: the token under the chosen cookie name among
+// decoys - or, slot "none", no session cookie at all (decoys only, possibly no Cookie header).
+func c16TokCookieHeader(it *c16Item) string {
+	h := c16CookieHeader(it.cookie, it.token, it.rng)
+	if it.vec != nil && it.vec.In.Slot == "none" {
+		var rest []string
+		for _, c := range strings.Split(h, "; ") {
+			if !strings.HasPrefix(c, it.cookie+"=") {
+				rest = append(rest, c)
+			}
+		}
+		return strings.Join(rest, "; ")
+	}
+	return h
 }
 
 func c16LoadVecs(t *testing.T, rep *Report) ([]*c16Vec, []*c16MapVec) {
@@ -92,6 +111,15 @@ func c16PrepareTok(env *c16Env, it *c16Item) {
 		} else {
 			it.cookie = []string{"Token", "session", "tokens", c16CustomCookie, "token2"}[rng.Intn(5)]
 		}
+	}
+	if !v.In.Req.plain() { // (a plain GET draws nothing from the item's rng: the older vectors keep their concretisation)
+		if it.reqHdrs, it.err = c16ShapeHeaders(v.In.Req, rng); it.err != nil {
+			return
+		}
+	}
+	if v.In.Slot != "named" && v.In.Slot != "other" && v.In.Slot != "none" {
+		it.err = fmt.Errorf("unknown cookie slot class %q", v.In.Slot)
+		return
 	}
 	if v.In.Src != "minted" {
 		return
@@ -243,16 +271,18 @@ func c16MintDrift(it *c16Item, nowSec int64) []string {
 }
 
 type c16Result struct {
-	SessErr    string `json:"sess_err_class,omitempty"`
-	TrkErr     string `json:"trk_err_class,omitempty"`
-	Obs        c16Obs `json:"obs"`
-	TrkAccept  bool   `json:"trk_accept"`
-	TrkPanic   string `json:"trk_panic,omitempty"`
-	CookieName string `json:"cookie_name"`
+	SessErr    string            `json:"sess_err_class,omitempty"`
+	TrkErr     string            `json:"trk_err_class,omitempty"`
+	Obs        c16Obs            `json:"obs"`
+	TrkAccept  bool              `json:"trk_accept"`
+	TrkPanic   string            `json:"trk_panic,omitempty"`
+	CookieName string            `json:"cookie_name"`
+	ReqHdrs    map[string]string `json:"req_headers,omitempty"`
 }
 
 func c16ReplayTok(it *c16Item, now time.Time, res c16Result) map[string]any {
 	return map[string]any{"kind": "tok", "vector": it.vec, "cfg": it.vec.Cfg, "token": it.token, "cookie_name": it.cookie,
+		"req_method": it.vec.In.Req.Method, "req_headers": it.reqHdrs, "no_cookie": it.vec.In.Slot == "none",
 		"now": now.Format(time.RFC3339Nano), "observed": res, "expect_subject": it.expSubject,
 		"expect_attrs": c16Expected(it.stmts, it.authn, false), "expect_attrs_by_name": c16Expected(it.stmts, it.authn, true),
 		"minted_session": it.vec.In.Src == "minted" && it.vec.In.Kind == "session",
@@ -295,14 +325,14 @@ func c16JudgeTok(rep *Report, key string, v *c16Vec, res c16Result, expSubject s
 	o := res.Obs
 	switch {
 	case v.Class == "MustReject" && o.Ran:
-		rep.Violation(key, "request treated as authenticated (wrapped handler ran) although the presented token is: "+c16WhyText(v.Why)+c16ByText(v), replay())
+		rep.Violation(key, "request treated as authenticated (wrapped handler ran) although the presented token is: "+c16WhyText(v.Why)+c16ByText(v)+c16ShapeText(v, res.ReqHdrs), replay())
 		return
 	case v.Class == "MustAccept" && !o.Ran:
 		what := fmt.Sprintf("outcome %s (status %d)", o.Outcome, o.Status)
 		if o.Panic != "" {
 			what = "panic: " + strings.SplitN(o.Panic, "\n", 2)[0]
 		}
-		rep.Violation(key, "session token returned by this deployment's CreateSession, presented strictly inside (iat, exp), yields no session: "+what, replay())
+		rep.Violation(key, "session token returned by this deployment's CreateSession, presented strictly inside (iat, exp), yields no session: "+what+c16ShapeText(v, res.ReqHdrs), replay())
 		return
 	}
 	if o.Ran && v.In.Src == "minted" && v.In.Kind == "session" {
@@ -433,7 +463,7 @@ func TestC16(t *testing.T) {
 	rep := NewReport("C16")
 	defer rep.Finish(t)
 	rep.Rule = "every terminal state of spec/SessionToken.tla: (VEC) token records - all single and pairwise deviations from a valid session token over " +
-		"kind, alg, key, iss, aud, aud form, iat, nbf, exp, marker claim, string mutation, cookie slot; full products alg x key x marker x kind, iat x nbf x exp, " +
+		"kind, alg, key, iss, aud, aud form, iat, nbf, exp, marker claim, string mutation, cookie slot; the REQUEST SHAPE (method GET HEAD POST PUT DELETE OPTIONS x no further header / Access-Control-Request-Method + Origin / X-Requested-With) for presentations of no cookie, a garbage cookie, six refused tokens and three fresh own session tokens; full products alg x key x marker x kind, iat x nbf x exp, " +
 		"iss x aud x form x marker x kind; tokens minted by the real CreateSession / TrackRequest of this and of other deployments at 9 ages - under RSA/ECDSA keys, " +
 		"two lifetimes, default/custom cookie name.  Each is concretised (real mint, or manual base64url/JSON assembly signed with crypto/rsa, crypto/ecdsa, crypto/hmac, " +
 		"ed25519), presented in a cookie to m.RequireAccount(handler) with jwt.TimeFunc pinned, and to RequestTracker.GetTrackedRequests under saml_<sub>.  " +
@@ -568,6 +598,54 @@ func TestC16(t *testing.T) {
 		return
 	}
 	rep.Extra["fresh_session_tokens_whose_only_fault_is_the_minting_deployments_url"] = urlDim
+	// the request shape (counted from the vectors: what the model requires): in every shape - method x header set -
+	// there is a presentation without any cookie, one of a garbage cookie, one of a whole token the statement refuses
+	// and one of this deployment's fresh session token; the model's prediction never depends on the shape
+	shapeDim := map[string]map[string]int{}
+	for _, v := range vecs {
+		sh := v.In.Req.String()
+		if shapeDim[sh] == nil {
+			shapeDim[sh] = map[string]int{}
+		}
+		switch {
+		case v.Class == "MustReject" && v.Why["noToken"]:
+			shapeDim[sh]["no cookie"]++
+		case v.Class == "MustReject" && v.In.Mutation == "garbage":
+			shapeDim[sh]["garbage cookie"]++
+		case v.Class == "MustReject" && v.In.Mutation == "none" && v.In.Slot == "named":
+			shapeDim[sh]["refused token"]++
+		case v.Class == "MustAccept":
+			shapeDim[sh]["fresh own session token"]++
+		}
+		if v.Why["noToken"] != (v.In.Slot == "none") {
+			rep.Break("vector %s: slot %q with why.noToken=%v", c16TokKey(v), v.In.Slot, v.Why["noToken"])
+			return
+		}
+		if (v.Class == "MustReject" && v.Pred.Out == "handler") || (v.Class == "MustAccept" && v.Pred.Out != "handler") {
+			rep.Break("vector %s: class %s but the model (deviations off) predicts %s", c16TokKey(v), v.Class, v.Pred.Out)
+			return
+		}
+	}
+	for _, m := range c16Methods {
+		for _, h := range c16HdrSets {
+			sh := c16Shape{Method: m, Hdr: h}.String()
+			for _, what := range []string{"no cookie", "garbage cookie", "refused token", "fresh own session token"} {
+				if shapeDim[sh][what] == 0 {
+					rep.Break("vacuous: no presentation of kind %q in a request of shape %s", what, sh)
+					return
+				}
+			}
+		}
+	}
+	rep.Extra["presentations_per_request_shape"] = shapeDim
+	// the registered configurations have the deviation PreflightBypass off; the phase before this one runs TLC with it
+	// on (spec/SessionToken_C16shape.cfg) and must have left a counterexample to the gatekeeping invariant
+	if c16Refuted("Invariant OnlyMintedSessionTokensAuthenticate is violated") {
+		rep.Note("model self-test: with PreflightBypass on (SessionToken_C16shape.cfg) TLC refutes OnlyMintedSessionTokensAuthenticate")
+	} else {
+		rep.Break("TLC did not refute OnlyMintedSessionTokensAuthenticate under the deviation PreflightBypass (no counterexample in the work directory): the request-shape dimension of the model is vacuous")
+		return
+	}
 	if saml.MaxIssueDelay != c16TrkLife*time.Second {
 		// a default of the code under test, not a harness failure: tracked-request tokens then carry another exp than
 		// the model's (drift at every such mint); no tracked-request token may authenticate whatever its times
@@ -801,14 +879,25 @@ func TestC16(t *testing.T) {
 	}
 }
 
+// c16Refuted reports whether a refutation phase (on_violation: emit) left a counterexample naming the invariant.
+func c16Refuted(what string) bool {
+	cex, _ := filepath.Glob(filepath.Join(workDir(), "tlc_violation_*.txt"))
+	for _, f := range cex {
+		if b, err := os.ReadFile(f); err == nil && strings.Contains(string(b), what) {
+			return true
+		}
+	}
+	return false
+}
+
 func c16RunTok(rep *Report, it *c16Item, now time.Time, out *c16Result) {
 	v := it.vec
 	if it.mintErr != nil {
 		c16NoToken(rep, it, v.Class)
 		return
 	}
-	res := c16Result{CookieName: it.cookie}
-	res.Obs = c16Request(it.d, c16CookieHeader(it.cookie, it.token, it.rng), nil, it.d.m.RequireAccount)
+	res := c16Result{CookieName: it.cookie, ReqHdrs: it.reqHdrs}
+	res.Obs = c16RequestShaped(it.d, v.In.Req.Method, it.reqHdrs, c16TokCookieHeader(it), nil, it.d.m.RequireAccount)
 	res.TrkAccept, res.TrkPanic = c16Tracked(it.d, it.sub, it.token)
 	res.SessErr, res.TrkErr = c16DecodeClasses(it.d, it.token)
 	*out = res
@@ -1002,6 +1091,9 @@ func init() {
 			OwnRoot       string              `json:"own_root"`
 			MintRoot      string              `json:"mint_root"`
 			MintKey       string              `json:"mint_key"`
+			ReqMethod     string              `json:"req_method"`
+			ReqHeaders    map[string]string   `json:"req_headers"`
+			NoCookie      bool                `json:"no_cookie"`
 		}
 		if err := json.Unmarshal(raw, &r); err != nil {
 			t.Fatal(err)
@@ -1051,8 +1143,11 @@ func init() {
 				}
 				hdr = r.CookieName + "=" + tok
 			}
-			res := c16Result{CookieName: r.CookieName}
-			res.Obs = c16Request(d, hdr, nil, d.m.RequireAccount)
+			if r.NoCookie {
+				hdr = ""
+			}
+			res := c16Result{CookieName: r.CookieName, ReqHdrs: r.ReqHeaders}
+			res.Obs = c16RequestShaped(d, r.ReqMethod, r.ReqHeaders, hdr, nil, d.m.RequireAccount)
 			c16JudgeTok(rep, r.Key, &v, res, r.ExpectSubject, r.ExpectAttrs, r.ExpectByName, func() map[string]any { return nil })
 			return len(rep.Violations) > 0, fmt.Sprintf("class=%s handler_ran=%v outcome=%s subject=%q attrs=%v", v.Class, res.Obs.Ran, res.Obs.Outcome, res.Obs.Subject, res.Obs.Attrs)
 		case "life":
